@@ -21,6 +21,7 @@ import (
 	"math"
 	"reflect"
 	"regexp"
+	"sort"
 	"time"
 )
 
@@ -254,6 +255,19 @@ func reifyMap(opts *options, to reflect.Value, from *Config, validators []valida
 			// merging into an entry held by pointer gives the value the
 			// pointer leads to (like for struct fields, see reifyGetField)
 			to.SetMapIndex(key, pointerize(to.Type().Elem(), v.Type(), v))
+		}
+	}
+
+	// entries the configuration does not name are kept as they are; they are
+	// validated like the kept elements of a list (reifyDoArray)
+	keys := to.MapKeys()
+	sort.Slice(keys, func(i, j int) bool { return mapKeyLess(keys[i], keys[j]) })
+	for _, key := range keys {
+		if _, named := fields[key.String()]; named {
+			continue
+		}
+		if err := tryRecursiveValidate(to.MapIndex(key), opts, nil); err != nil {
+			return raiseValidation(from.ctx, from.metadata, "", err)
 		}
 	}
 
